@@ -69,7 +69,8 @@ def key_of(prop, e):
         f, c = panic_site(e.get("detail", ""))
         return slug("%s/%s/%s" % (f, c, mut.split("/")[0]))
     if prop == "C38":
-        return slug("%s/%s/%s" % (e["era"], e["rule"] or "unlabelled", mut))
+        rule = e["rule"] or "+".join(e.get("refBroken") or []) or "unlabelled"
+        return slug("%s/%s/%s" % (e["era"], rule, mut))
     extra = ""
     if prop == "C35" and mut.startswith("extra-"):
         mut = "extra-witness-with-invalid-signature"     # whatever the position and the number of valid ones
